@@ -12,7 +12,19 @@ R-PURITY   every in-place operation (subscript store/delete, augmented assignmen
 R-NEWOBJ   the modifiers (functions of signal_modifier.py and instance methods of TimeSeries that are
            annotated to return a TimeSeries) return a newly constructed object on every path, never the
            object passed in.
-Does not decide: interpolation values, column-by-column equality of the grouped resampling.
+R-FALSY-NUMERIC  no *truthiness* use (`x or y`, `x and y`, `if x`, `if not x`, `y if x else z`, `while x`, `assert x`,
+           comprehension `if x`, `bool(x)`, `filter(None, xs)`, `any(xs)`/`all(xs)`) of a value whose static type is
+           numeric or Optional[numeric].  Types come from annotations only (parameters, annotated locals, class
+           fields, return annotations of functions of the three modules) propagated through simple assignment,
+           `.get(k)` / subscripts / iteration / `.items()` / `.values()` of annotated containers and tuple unpacking:
+           such values are settings the caller supplies (delay, gain, bias, weight, time) for which zero is legal
+           and must not be read as "absent" (a 0.0 per-sensor delay override silently becoming the default breaks
+           "grouped per-sensor delays give exactly the column-by-column result").  Truthiness of containers,
+           strings, bools, non-numeric optionals, explicit `.size`/`len()` tests and values of unknown type are
+           not reported.
+Does not decide: interpolation values, column-by-column equality of the grouped resampling beyond the clause above,
+truthiness of values whose type cannot be derived from annotations (computed numbers, unannotated attributes such as
+Parameter.value).
 """
 from __future__ import annotations
 
@@ -41,7 +53,340 @@ FLOOR_NEWOBJ = 8          # apply_bias/gain/delay/time_window/delayed_ts_window/
 ANCHORS = {"apply_bias", "apply_gain", "apply_delay", "apply_time_window", "apply_resample_and_delay",
            "TimeSeries.resample", "TimeSeries.interpolate", "SignalTransform.apply"}
 
+FLOOR_TRUTH = 31          # truthiness sites (leaf operands in a boolean context that are not comparisons), hand-counted
+
 SERIES_CLASS = "TimeSeries"
+
+# ------------------------------------------------------------------------------------------------
+# R-FALSY-NUMERIC: annotation-derived types
+
+NUM, BOOL, STR, OTHER = "num", "bool", "str", "other"
+NUMERIC_LEAVES = {"float", "int", "complex", "floating", "integer", "float64", "float32", "int64", "int32", "number",
+                  "Real", "Number"}
+MAP_HEADS = {"dict", "Dict", "Mapping", "MutableMapping", "OrderedDict", "defaultdict"}
+SEQ_HEADS = {"list", "List", "Sequence", "MutableSequence", "Iterable", "Iterator", "Collection", "set", "Set",
+             "frozenset", "FrozenSet", "deque"}
+
+
+def ann_type(a):
+    """annotation AST -> NUM | BOOL | STR | OTHER | ("map", V) | ("seq", E) | ("tuple", [..]) | None (unknown).
+    Optional[T] / T | None has the type of T (truthiness conflates None and zero: still a report for numerics)."""
+    if a is None:
+        return None
+    if isinstance(a, ast.Constant):
+        if isinstance(a.value, str):
+            try:
+                return ann_type(ast.parse(a.value, mode="eval").body)
+            except SyntaxError:
+                return None
+        return "none" if a.value is None else None
+    if isinstance(a, ast.BinOp) and isinstance(a.op, ast.BitOr):
+        return union_type([ann_type(a.left), ann_type(a.right)])
+    if isinstance(a, ast.Subscript):
+        head = pyalias._dotted(a.value).split(".")[-1]
+        args = a.slice.elts if isinstance(a.slice, ast.Tuple) else [a.slice]
+        if head == "Optional":
+            return union_type([ann_type(args[0]), "none"])
+        if head == "Union":
+            return union_type([ann_type(x) for x in args])
+        if head in MAP_HEADS:
+            return ("map", ann_type(args[1]) if len(args) == 2 else None)
+        if head in SEQ_HEADS:
+            return ("seq", ann_type(args[0]))
+        if head in ("tuple", "Tuple"):
+            if len(args) == 2 and isinstance(args[1], ast.Constant) and args[1].value is Ellipsis:
+                return ("seq", ann_type(args[0]))
+            return ("tuple", [ann_type(x) for x in args])
+        return OTHER
+    d = pyalias._dotted(a)
+    leaf = d.split(".")[-1] if d else ""
+    if leaf == "bool":
+        return BOOL
+    if leaf == "str":
+        return STR
+    if leaf in NUMERIC_LEAVES:
+        return NUM
+    if leaf in MAP_HEADS:
+        return ("map", None)
+    if leaf in SEQ_HEADS or leaf in ("tuple", "Tuple"):
+        return ("seq", None)
+    if leaf in ("None", "NoneType"):
+        return "none"
+    return OTHER if leaf else None
+
+
+def union_type(ts):
+    core = [t for t in ts if t != "none"]
+    if not core:
+        return OTHER
+    if any(t is None for t in core):
+        return None
+    first = core[0]
+    if all(t == first for t in core):
+        return first
+    if all(t == NUM for t in core):
+        return NUM
+    return OTHER          # e.g. Mapping[str, float] | np.ndarray: not a numeric scalar
+
+
+class Typer:
+    """flow-insensitive, annotation-derived types of the names of one function"""
+
+    def __init__(self, prog, f):
+        self.prog, self.f = prog, f
+        self.env = {}
+        for p, a in f.ann.items():
+            t = ann_type(a)
+            if t is not None:
+                self.env[p] = t
+        self.cls_fields = {}
+        if f.cls is not None:
+            self.cls_fields = class_field_types(f.cls)
+        # annotated locals win; otherwise a local has a type when all its simple assignments agree
+        annotated = set(self.env)
+        for _ in range(4):
+            cand = {}
+            for n in own_nodes(f.node):
+                if isinstance(n, ast.AnnAssign) and isinstance(n.target, ast.Name):
+                    t = ann_type(n.annotation)
+                    if t is not None:
+                        self.env[n.target.id] = t
+                        annotated.add(n.target.id)
+                elif isinstance(n, ast.Assign):
+                    for tg in n.targets:
+                        self.bind(tg, self.typeof(n.value), cand)
+                elif isinstance(n, (ast.For, ast.comprehension)):
+                    self.bind(n.target, self.elem(self.typeof(n.iter), n.iter), cand)
+                elif isinstance(n, ast.AugAssign) and isinstance(n.target, ast.Name):
+                    cand.setdefault(n.target.id, []).append(None)
+            changed = False
+            for k, ts in cand.items():
+                if k in annotated:
+                    continue
+                t = ts[0] if ts and all(x == ts[0] for x in ts) else None
+                if self.env.get(k) != t:
+                    changed = True
+                    if t is None:
+                        self.env.pop(k, None)
+                    else:
+                        self.env[k] = t
+            if not changed:
+                break
+
+    def bind(self, tg, t, cand):
+        if isinstance(tg, ast.Name):
+            cand.setdefault(tg.id, []).append(t)
+        elif isinstance(tg, (ast.Tuple, ast.List)):
+            for i, e in enumerate(tg.elts):
+                if isinstance(t, tuple) and t[0] == "tuple" and i < len(t[1]):
+                    self.bind(e, t[1][i], cand)
+                elif isinstance(t, tuple) and t[0] == "seq":
+                    self.bind(e, t[1], cand)
+                else:
+                    self.bind(e, None, cand)
+
+    def elem(self, t, iter_node):
+        """type of the values produced by iterating"""
+        if isinstance(t, tuple) and t[0] == "seq":
+            return t[1]
+        if isinstance(t, tuple) and t[0] == "map":
+            return OTHER if t[1] is not None else None       # keys: not the numeric values
+        return None
+
+    def typeof(self, e):
+        if isinstance(e, ast.Constant):
+            v = e.value
+            return BOOL if isinstance(v, bool) else STR if isinstance(v, str) else OTHER if v is None else None
+        if isinstance(e, ast.Name):
+            return self.env.get(e.id)
+        if isinstance(e, ast.Attribute):
+            if isinstance(e.value, ast.Name) and self.f.cls is not None and self.f.params and \
+                    e.value.id == self.f.params[0] and not self.f.static:
+                return self.cls_fields.get(e.attr)
+            bt = None
+            if isinstance(e.value, ast.Name):
+                a = self.f.ann.get(e.value.id)
+                if a is not None:
+                    for nm in pyalias._ann_names(a):
+                        ci = self.prog.find_class(nm.split(".")[-1])
+                        if ci is not None:
+                            bt = class_field_types(ci).get(e.attr)
+            return bt
+        if isinstance(e, ast.Subscript):
+            t = self.typeof(e.value)
+            if isinstance(t, tuple):
+                if t[0] == "map":
+                    return t[1]
+                if t[0] == "seq":
+                    return t if isinstance(e.slice, ast.Slice) else t[1]
+                if t[0] == "tuple" and isinstance(e.slice, ast.Constant) and isinstance(e.slice.value, int) \
+                        and -len(t[1]) <= e.slice.value < len(t[1]):
+                    return t[1][e.slice.value]
+            return None
+        if isinstance(e, ast.Call):
+            fn = e.func
+            if isinstance(fn, ast.Attribute):
+                rt = self.typeof(fn.value)
+                if isinstance(rt, tuple) and rt[0] == "map":
+                    if fn.attr in ("get", "pop", "setdefault"):
+                        dflt = self.typeof(e.args[1]) if len(e.args) > 1 else None
+                        return rt[1] if (len(e.args) < 2 or dflt in (rt[1], None) or dflt == OTHER) else None
+                    if fn.attr == "values":
+                        return ("seq", rt[1])
+                    if fn.attr == "items":
+                        return ("seq", ("tuple", [OTHER, rt[1]]))
+                    if fn.attr == "keys":
+                        return ("seq", OTHER)
+                if isinstance(rt, tuple) and rt[0] == "seq" and fn.attr == "pop":
+                    return rt[1]
+            if isinstance(fn, ast.Name) and fn.id in ("list", "tuple", "sorted", "reversed", "set") and len(e.args) == 1:
+                t = self.typeof(e.args[0])
+                return ("seq", self.elem(t, e.args[0])) if isinstance(t, tuple) else None
+            if isinstance(fn, ast.Name) and fn.id == "enumerate" and e.args:
+                t = self.typeof(e.args[0])
+                return ("seq", ("tuple", [OTHER, self.elem(t, e.args[0])])) if isinstance(t, tuple) else None
+            if isinstance(fn, ast.Name) and fn.id == "zip":
+                return ("seq", ("tuple", [self.elem(self.typeof(a), a) for a in e.args]))
+            if isinstance(fn, ast.Name) and fn.id in ("isinstance", "callable", "hasattr", "bool", "any", "all", "issubclass"):
+                return BOOL
+            if isinstance(fn, ast.Name) and fn.id == "str":
+                return STR
+            # functions / methods of the analysed modules: their return annotation
+            nm = fn.id if isinstance(fn, ast.Name) else fn.attr if isinstance(fn, ast.Attribute) else None
+            cands = [g for g in self.prog.all_functions() if g.name == nm]
+            if len(cands) == 1 and cands[0].node.returns is not None:
+                return ann_type(cands[0].node.returns)
+            return None
+        if isinstance(e, ast.IfExp):
+            a, b = self.typeof(e.body), self.typeof(e.orelse)
+            return a if a == b else None
+        if isinstance(e, ast.BoolOp):
+            ts = [self.typeof(v) for v in e.values]
+            return ts[0] if all(t == ts[0] for t in ts) else None
+        if isinstance(e, ast.Compare) or (isinstance(e, ast.UnaryOp) and isinstance(e.op, ast.Not)):
+            return BOOL
+        if isinstance(e, (ast.List, ast.ListComp, ast.Set, ast.SetComp, ast.Tuple, ast.GeneratorExp)):
+            return ("seq", None)
+        if isinstance(e, (ast.Dict, ast.DictComp)):
+            return ("map", None)
+        if isinstance(e, ast.JoinedStr):
+            return STR
+        return None          # arithmetic and everything else: computed, not an annotated setting
+
+
+def class_field_types(ci):
+    out = {}
+    for n, a in ci.fields:
+        t = ann_type(a)
+        if t is not None:
+            out[n] = t
+    for st in ci.node.body:
+        if isinstance(st, ast.Assign) and len(st.targets) == 1 and isinstance(st.targets[0], ast.Name) and \
+                isinstance(st.value, ast.Constant) and isinstance(st.value.value, bool):
+            out[st.targets[0].id] = BOOL
+    init = ci.methods.get("__init__")
+    if init is not None:
+        for n in ast.walk(init.node):
+            if isinstance(n, ast.AnnAssign) and isinstance(n.target, ast.Attribute) and \
+                    isinstance(n.target.value, ast.Name) and n.target.value.id == init.params[0]:
+                t = ann_type(n.annotation)
+                if t is not None:
+                    out[n.target.attr] = t
+            elif isinstance(n, ast.Assign) and len(n.targets) == 1 and isinstance(n.targets[0], ast.Attribute) and \
+                    isinstance(n.targets[0].value, ast.Name) and n.targets[0].value.id == init.params[0] and \
+                    isinstance(n.value, ast.Name) and n.targets[0].attr not in out:
+                t = ann_type(init.ann.get(n.value.id))
+                if t is not None:
+                    out[n.targets[0].attr] = t
+    return out
+
+
+def own_nodes(fn):
+    out = []
+
+    def rec(n, top):
+        if isinstance(n, (ast.FunctionDef, ast.AsyncFunctionDef, ast.Lambda, ast.ClassDef)) and not top:
+            return
+        out.append(n)
+        for c in ast.iter_child_nodes(n):
+            rec(c, False)
+    rec(fn, True)
+    return out
+
+
+def truth_sites(fn):
+    """(leaf expression, form) for every value used for its truthiness"""
+    sites = []
+
+    def truth(e, form):
+        if isinstance(e, ast.UnaryOp) and isinstance(e.op, ast.Not):
+            truth(e.operand, "not")
+        elif isinstance(e, ast.BoolOp):
+            for v in e.values:
+                truth(v, "or" if isinstance(e.op, ast.Or) else "and")
+        elif isinstance(e, ast.Compare):
+            return                                   # explicit comparison: not a truthiness use
+        elif isinstance(e, ast.NamedExpr):
+            truth(e.value, form)
+        else:
+            sites.append((e, form, None))
+    for n in own_nodes(fn):
+        if isinstance(n, (ast.If, ast.While)):
+            truth(n.test, "if" if isinstance(n, ast.If) else "while")
+        elif isinstance(n, ast.IfExp):
+            truth(n.test, "ifexp")
+        elif isinstance(n, ast.Assert):
+            truth(n.test, "assert")
+        elif isinstance(n, ast.comprehension):
+            for c in n.ifs:
+                truth(c, "comprehension-if")
+        elif isinstance(n, ast.BoolOp):
+            # value context: every operand but the last is tested (the last one only if the whole is tested,
+            # which the enclosing construct handles; duplicates are removed below)
+            for v in n.values[:-1]:
+                truth(v, "or" if isinstance(n.op, ast.Or) else "and")
+        elif isinstance(n, ast.Call) and isinstance(n.func, ast.Name):
+            if n.func.id == "bool" and len(n.args) == 1:
+                truth(n.args[0], "bool()")
+            elif n.func.id == "filter" and len(n.args) == 2 and isinstance(n.args[0], ast.Constant) and n.args[0].value is None:
+                sites.append((n.args[1], "filter(None,..)", "elem"))
+            elif n.func.id in ("any", "all") and len(n.args) == 1 and not isinstance(n.args[0], (ast.GeneratorExp, ast.ListComp)):
+                sites.append((n.args[0], n.func.id + "()", "elem"))
+            elif n.func.id in ("any", "all") and len(n.args) == 1:
+                truth(n.args[0].elt, n.func.id + "()")
+    seen, out = set(), []
+    for e, form, mode in sites:
+        if id(e) not in seen:
+            seen.add(id(e))
+            out.append((e, form, mode))
+    return out
+
+
+def falsy_numeric(res, prog, results):
+    res.rule("R-FALSY-NUMERIC", "no truthiness test of a value whose annotation-derived type is numeric / Optional[numeric] "
+             "(zero is a legal delay/gain/bias/weight/time and must not be read as absent)", floor=FLOOR_TRUTH)
+    unknown = 0
+    for f, _ in results:
+        ty = Typer(prog, f)
+        per_func = {}
+        for e, form, mode in truth_sites(f.node):
+            t = ty.typeof(e)
+            if mode == "elem":
+                t = ty.elem(t, e) if isinstance(t, tuple) else None
+            text = ast.unparse(e)
+            k = per_func.get((form, text), 0)
+            per_func[(form, text)] = k + 1
+            construct = f"{f.qual}:{form}:{text}" + (f"#{k + 1}" if k else "")
+            if t == NUM:
+                res.bad("R-FALSY-NUMERIC", construct, f.mod.rel, e.lineno,
+                        f"{f.qual}: truthiness of `{text}` ({form}) whose declared type is numeric/Optional[numeric]: "
+                        f"a legal value 0 / 0.0 is treated like a missing one")
+            else:
+                if t is None:
+                    unknown += 1
+                kind = "unknown (not decided)" if t is None else t[0] + " container" if isinstance(t, tuple) else t
+                res.ok("R-FALSY-NUMERIC", construct, {"file": f.mod.rel, "line": e.lineno, "type": kind})
+    res.count("truthiness_sites_unknown_type", unknown)
 
 
 def _returns_series(f) -> bool:
@@ -116,6 +461,8 @@ def run(res, tier):
         else:
             res.ok("R-NEWOBJ", construct, {"file": f.mod.rel, "line": f.node.lineno, "returns": repr(s.ret)})
 
+    falsy_numeric(res, prog, results)
+
     alias = pyalias.constructor_aliasing(prog, SERIES_CLASS)
     res.extra["constructor_stores_argument_uncopied"] = {SERIES_CLASS: alias}
     res.extra["exempt_receivers"] = EXEMPT_RECEIVERS
@@ -128,7 +475,9 @@ def run(res, tier):
         "run to a fixpoint, private helpers are judged at their call sites. R-NEWOBJ: the modifiers return a "
         "newly constructed TimeSeries on every path.")
     res.not_decided = ("interpolation values (range of neighbouring samples), equality of grouped and column-wise "
-                       "resampling, identity resampling.")
+                       "resampling beyond the R-FALSY-NUMERIC clause, identity resampling; truthiness of values whose "
+                       "type cannot be derived from annotations (computed numbers, unannotated attributes such as "
+                       "Parameter.value) is counted but not judged.")
     res.assumptions = [
         "numpy/scipy functions listed as allocating in sa/pyalias.py allocate; functions not listed are treated as "
         "returning a view of their arguments (conservative)",
